@@ -972,6 +972,36 @@ fn frags3(out: &mut Out, enc: &mut Encapsulator<DefaultCrc>, pdu: &Pdu, id: u8, 
 }
 
 fn interleave_special(out: &mut Out, rng: &mut Rng, thorough: bool) {
+    // (00) a start packet that is rejected as a whole (unknown mandatory extension) while a train is open on the
+    // same fragment id, on an aliasing id, on another id: the train goes on and completes
+    for (ki, kind) in [2u8, 3].iter().enumerate() {
+        for other in [0u8, 2, 1] {
+            for at in 1..=2usize {
+                let mgr = std_mgr();
+                out.begin("interleave", Obj::new().str("what", "rejected_whole_same_id").boolean("lock", false).raw("rx", &jrxcfg(2, PDU_SIZE, &mgr).end()));
+                let mut rx: Rx<DefaultCrc> = Rx::new(2, PDU_SIZE, DefaultCrc {}, mgr);
+                for i in 0..3 {
+                    rx.ev_provision(out, PDU_SIZE + i);
+                }
+                let open_id = 4u8;
+                let bad_id = open_id + other; // same id, aliasing id (2 slots), other slot
+                rx.note_id(open_id);
+                rx.note_id(bad_id);
+                let pdu = rng.bytes(30);
+                let t = train(&pdu, &[1, 2, 3, 4, 5, 6], false, 0x0800, open_id, &[10, 10]);
+                // 0x0099: a mandatory extension the manager does not know, then a type field and payload
+                let bad = P { kind: *kind, lt: 1, fragid: bad_id, tl: 20, ptype: 0x0099, label: vec![9, 9, 9], chain: vec![0x08, 0x00], payload: vec![1, 2, 3, 4], crc: 0, gse_len: None }.ser();
+                for (i, p) in t.iter().enumerate() {
+                    if i == at {
+                        feed(out, &mut rx, &bad, vec![("ilv", "true".to_string())]);
+                    }
+                    feed(out, &mut rx, &p.ser(), vec![("ilv", "true".to_string())]);
+                }
+                let _ = ki;
+                rx.ev_drain(out);
+            }
+        }
+    }
     // (0) slot counts around the size of the fragment-id space: with S slots the ids 0 and S (254, 255) share a
     // slot; a stray intermediate / end packet of the aliasing id is refused and leaves the open train alone
     for slots in [254usize, 255, 256, 300] {
